@@ -606,3 +606,160 @@ def check_node_reuse(ctx, fb, rule, scope=None):
                            'overwrites the first list\'s link (subscribers cut off or spliced into another list)' %
                            f.text(arg), 'function: ' + f.full[:300])
     return n
+
+
+# ------------------------------------------------------------------------------------------------ R-AFTERRELEASE
+
+_WRAP = ('ImplicitCastExpr', 'CXXStaticCastExpr', 'ParenExpr', 'CStyleCastExpr', 'CXXReinterpretCastExpr')
+
+
+def _released_object(f, i):
+    """which object an expression denotes: 'this' | ('v', local id) | ('m', member chain text) | None"""
+    n = f.sn(i)
+    while n is not None and n['k'] in _WRAP and n.get('ch'):
+        n = f.sn(n['ch'][0])
+    if n is None:
+        return None
+    if n['k'] == 'UnaryOperator' and n['op'] == '*':
+        return _released_object(f, n['ch'][0])
+    if n['k'] == 'CXXThisExpr':
+        return 'this'
+    if n['k'] == 'DeclRefExpr' and 'id' in n:
+        return ('v', n['id'])
+    if n['k'] == 'MemberExpr':
+        return ('m', f.text(n['i']))
+    if n['k'] in ('CallExpr', 'CXXMemberCallExpr') and n.get('cn', '').endswith('DownCast') and n.get('args'):
+        return _released_object(f, n['args'][0])
+    return None
+
+
+def _is_decref(f, m, obj):
+    return m['k'] == 'CXXMemberCallExpr' and m.get('cn', '').endswith('::DecRef') and m.get('obj') is not None and \
+        _released_object(f, m['obj']) == obj
+
+
+def check_after_release(ctx, fb, rule, scope=None):
+    """R-AFTERRELEASE: a DecRef() gives the caller's reference away; the object may be freed (or, for a shared core,
+    moved from by whoever is now the last holder) at once.  So on every CFG path, a use of the same object after a
+    DecRef must be followed by another DecRef of it (the function still owned a further reference: SetResultImpl's
+    `DecRef(); Loop(this, head); DecRef(); DecRef();`).  Uses reached only through a loop back edge belong to the
+    next iteration, which owns its own reference (the combinators start with one reference per input): accepted and
+    listed as instances of kind loop-carried.  Objects: `this`, locals / parameters, member chains."""
+    nsites = 0
+    for f in sorted(fb.fn.values(), key=lambda f: f.full):
+        if f.cfg is None or (scope is not None and not scope(f)):
+            continue
+        decs = [n for n in f.own_nodes() if n['k'] == 'CXXMemberCallExpr' and n.get('cn', '').endswith('::DecRef') and
+                n.get('obj') is not None]
+        if not decs:
+            continue
+        cf = f.cfg
+        dom = None
+        for d in decs:
+            obj = _released_object(f, d['obj'])
+            pos = cf.pos_of(d['i'])
+            if pos is None:
+                continue  # in a discarded (constant-false) branch of this instantiation
+            key = 'R-AFTERRELEASE %s' % f.qn
+            nsites += 1
+            if obj is None:
+                ctx.broken('R-AFTERRELEASE: the object released at %s is not recognised' % f.loc(d))
+
+            def in_decref(e):
+                par = f.parents.get(e)
+                while par is not None and f.nodes[par]['k'] in _WRAP + ('MemberExpr', 'UnaryOperator'):
+                    par = f.parents.get(par)
+                return par is not None and _is_decref(f, f.nodes[par], obj)
+
+            def is_dec(b, i, e):
+                return isinstance(e, int) and _is_decref(f, f.nodes[e], obj)
+
+            def is_use(b, i, e):
+                if not isinstance(e, int):
+                    return False
+                m = f.nodes[e]
+                if obj == 'this':
+                    hit = m['k'] == 'CXXThisExpr'
+                elif obj[0] == 'v':
+                    hit = m['k'] == 'DeclRefExpr' and m.get('id') == obj[1]
+                else:
+                    hit = m['k'] == 'MemberExpr' and f.text(e) == obj[1]
+                return hit and not in_decref(e)
+
+            def is_kill(e):
+                """the pointer variable / member is overwritten: what follows denotes another object"""
+                if not isinstance(e, int) or obj == 'this':
+                    return False
+                m = f.nodes[e]
+                if m['k'] == 'BinaryOperator' and m.get('op') == '=':
+                    l = f.sn(m['ch'][0])
+                    if l is None:
+                        return False
+                    if obj[0] == 'v':
+                        return l['k'] == 'DeclRefExpr' and l.get('id') == obj[1]
+                    return l['k'] == 'MemberExpr' and f.text(l['i']) == obj[1]
+                return False
+
+            def lhs_of_kill(e):
+                par = f.parents.get(e)
+                while par is not None and f.nodes[par]['k'] in _WRAP:
+                    par = f.parents.get(par)
+                return par is not None and is_kill(par) and f.strip(f.nodes[par]['ch'][0]) == e
+
+            def bad_use(b, i, e):
+                return is_use(b, i, e) and not lhs_of_kill(e) and \
+                    cf.reaches_exit_without((b, i), is_dec) is not None
+
+            # forward search without back edges (u -> v where v dominates u)
+            if dom is None:
+                dom = cf.dom()
+            b0, i0 = pos
+            found = None
+            loop_carried = None
+            el = cf.blocks[b0].el
+            killed = False
+            for i in range(i0 + 1, len(el)):
+                if bad_use(b0, i, el[i]):
+                    found = (b0, i)
+                    break
+                if is_kill(el[i]):
+                    killed = True
+                    break
+            if found is None and not killed:
+                seen = set()
+                st = [(s, False) for s in cf.succs(b0) if s is not None]
+                st = [(s, s in dom.get(b0, ())) for s, _ in st]
+                while st and found is None:
+                    b, via_back = st.pop()
+                    if (b, via_back) in seen:
+                        continue
+                    seen.add((b, via_back))
+                    stop = False
+                    for i, e in enumerate(cf.blocks[b].el):
+                        if bad_use(b, i, e):
+                            if via_back:
+                                loop_carried = loop_carried or (b, i)
+                            else:
+                                found = (b, i)
+                            stop = True
+                            break
+                        if is_kill(e):
+                            stop = True
+                            break
+                    if stop:
+                        continue
+                    for s in cf.succs(b):
+                        if s is None:
+                            continue
+                        st.append((s, via_back or s in dom.get(b, ())))
+            kind = 'loop-carried' if (found is None and loop_carried is not None) else 'plain'
+            ctx.instance(rule, '%s @%s [%s]' % (key, f.loc(d).split(':')[-1], kind),
+                         dict(function=f.full[:160], released=str(obj), kind=kind, at=f.loc(d)))
+            if found is not None:
+                b, i = found
+                ctx.report(rule, key, f.loc(f.nodes[cf.blocks[b].el[i]]),
+                           'the object whose reference was given away by DecRef() at %s is used afterwards, and no '
+                           'further reference is released on the way out (so none was owned): another holder may '
+                           'already have freed it or moved its value out' % f.loc(d),
+                           'function: %s\nreleased object: %s' % (f.full[:300], obj))
+    return nsites
